@@ -96,14 +96,17 @@ theorem loadIndex_trimmed (o : Opts) (kvs : List (W.Bytes × W.Bytes)) (ld : Loa
         · simp [ha]
 
 /-- whole run: when every height of `start..maxH` can be served, exactly those heights are delivered, ascending, each once,
-    the run completes (exit 0) -/
+    and the run completes: exit 0, or 101 when the callback itself panics on the delivered values (simplestats / balances
+    arithmetic in the dev profile — never for csvdump, unspentcsvdump, opreturn) -/
 theorem run_delivers_range (o : Opts) (key : Option W.Bytes) (kvs : List (W.Bytes × W.Bytes)) (files : List BlkFile)
     (coin : Coin) (ld : Loaded) (hcoin : coinOf o.coin = some coin) (hld : loadIndex o kvs = .ok ld)
     (hfiles : (files.filterMap fun f => (parseBlkIndex f.name).map fun n => (n, f)) ≠ [])
     (hkey : key ≠ some [])
     (hs : ∀ k, o.start ≤ k → k < o.start + (ld.maxH + 1 - o.start) →
       Servable coin o key (files.filterMap fun f => (parseBlkIndex f.name).map fun n => (n, f)) ld.trimmed k) :
-    (run o key kvs files).delivered = List.range' o.start (ld.maxH + 1 - o.start) ∧ (run o key kvs files).exit = 0 := by
+    (run o key kvs files).delivered = List.range' o.start (ld.maxH + 1 - o.start) ∧
+    ((run o key kvs files).exit = 0 ∨ (run o key kvs files).exit = 101) ∧
+    (o.callback ≠ "simplestats" → o.callback ≠ "balances" → (run o key kvs files).exit = 0) := by
   unfold run
   simp only [hcoin, hld]
   have hne : (files.filterMap fun f => (parseBlkIndex f.name).map fun n => (n, f)).isEmpty = false := by
@@ -114,10 +117,25 @@ theorem run_delivers_range (o : Opts) (key : Option W.Bytes) (kvs : List (W.Byte
   have hall := driveLoop_all coin o key _ ld.full ld.trimmed (ld.maxH + 1 - o.start) o.start [] [] [] hs
   obtain ⟨hd, x, hx, hxc⟩ := hall
   subst hxc
+  have hcp : o.callback ≠ "simplestats" → o.callback ≠ "balances" → ∀ bs, callbackPanics o coin.version bs = false := by
+    intro h1 h2 bs
+    unfold callbackPanics
+    split
+    · exact absurd (by assumption) h1
+    · exact absurd (by assumption) h2
+    · rfl
   cases key with
-  | none => simp only [hx, hd]; simp
+  | none =>
+    simp only [hx, hd]
+    refine ⟨by split <;> simp, by split <;> simp, ?_⟩
+    intro h1 h2
+    simp [hcp h1 h2]
   | some k =>
     cases k with
     | nil => exact absurd rfl hkey
-    | cons a l => simp only [hx, hd]; simp
+    | cons a l =>
+      simp only [hx, hd]
+      refine ⟨by split <;> simp, by split <;> simp, ?_⟩
+      intro h1 h2
+      simp [hcp h1 h2]
 end Run
